@@ -93,6 +93,9 @@ type Cluster struct {
 	InspectUser string                // "" = echo the created user
 	NCPU        int
 	MemTotal    int64
+	// FailStartMod > 0 makes VirtualizationStart fail for containers whose creation ordinal is a
+	// multiple of it (scripted engine failures that need no interception layer, for C34).
+	FailStartMod int
 }
 
 var current atomic.Pointer[Cluster]
@@ -319,7 +322,15 @@ func (p *Proxy) with(name, id string, f func(ct *Container) error) error {
 
 // VirtualizationStart .
 func (p *Proxy) VirtualizationStart(_ context.Context, id string) error {
-	return p.with("engine.VirtualizationStart", id, func(ct *Container) error { ct.Running = true; ct.Starts++; return nil })
+	c := p.cl()
+	return p.with("engine.VirtualizationStart", id, func(ct *Container) error {
+		if c.FailStartMod > 0 && ct.Ordinal%c.FailStartMod == 0 && ct.Starts == 0 {
+			return ErrInjected
+		}
+		ct.Running = true
+		ct.Starts++
+		return nil
+	})
 }
 
 // VirtualizationStop .
